@@ -318,3 +318,88 @@ specialise(
     bounds="channel (label, hint, itext label, constraint message) and presence of a ${q0} reference fixed per instance",
     weight=40,
 )
+
+
+# ---- a'': the CDATA-end sequence (needs 3 characters: fixed ']]' + one symbolic) -------------------
+def c06_cdata_end(ch: int, c2: int) -> bool:
+    """
+    vpre: 33 <= c2 <= 126 and c2 != 36
+    vpost: _ == True
+    """
+    return channel_ok(ch, "]]" + S(c2))
+
+
+specialise(
+    "C06",
+    "a.cdata-end",
+    c06_cdata_end,
+    {"ch": list(range(14))},
+    reach_if=lambda fx: fx["ch"] == 0,
+    timeout=300,
+    kernel=K,
+    shims=("S1", "S2", "S3", "S4", "S5", "S9", "S10"),
+    symbolic="cell text ']]' followed by one symbolic printable ASCII character (covers ']]>', which XML forbids raw in character data)",
+    bounds="text length 3 with a fixed 2-character prefix; one text channel per instance",
+    weight=40,
+)
+
+
+# ---- g: itext entries next to entries that hold a reference (order / history inside Survey.itext) ----
+def c06_itext_neighbour(ch: int, ref_before: bool, n: int, c0: int, c1: int) -> bool:
+    """
+    vpre: 33 <= c0 <= 126 and c0 != 36 and 33 <= c1 <= 126 and c1 != 36
+    vpost: _ == True
+    """
+    t = S(*((c0, c1)[:n]))
+    refd = "R ${q0} r"  # concrete: cells holding a reference reach the C lexer
+    q0 = {"type": "text", "name": "q0", "label": "Q0"}
+    a = {"list_name": "l1", "name": "a", "label::L1": refd if ref_before else "A"}
+    b = {"list_name": "l1", "name": "b", "label::L1": "B"}
+    qa = {"type": "text", "name": "qa", "label::L1": refd if ref_before else "QA"}
+    sel = {"type": "select_one l1", "name": "s1", "label::L1": "S"}
+    q1 = {"type": "text", "name": "q1", "label::L1": "Q1"}
+    if ch == 0:  # choice label after a sibling choice whose label holds a reference
+        b["label::L1"] = t
+        tid = "l1-1"
+    elif ch == 1:  # question label after a question whose label holds a reference
+        q1["label::L1"] = t
+        tid = "/data/q1:label"
+    elif ch == 2:  # hint
+        q1["hint::L1"] = t
+        tid = "/data/q1:hint"
+    else:  # choice label in a second language: entries of the first language come before
+        b["label::L1"] = "B"
+        b["label::L2"] = t
+        a["label::L2"] = "A2"
+        tid = "l1-1"
+    wb = {"survey": [q0, qa, sel, q1], "choices": [a, b]}
+    survey, _w, _js = build_survey(wb)
+    root = survey.xml()
+    lang = "L2" if ch == 3 else "L1"
+    tr = [x for x in elements(root, "translation") if x.getAttribute("lang") == lang][0]
+    tx = [x for x in child_elements(tr) if x.getAttribute("id") == tid]
+    if len(tx) != 1:
+        return False
+    vals = [v for v in child_elements(tx[0]) if not v.hasAttribute("form")]
+    if len(vals) != 1:
+        return False
+    for ser in (vals[0].toxml(), vals[0].toprettyxml(indent="  ")):
+        back = xmlmodel.parse(ser).documentElement
+        if child_elements(back) or text_of(back) != t:
+            return False
+    return True
+
+
+specialise(
+    "C06",
+    "g.itext-neighbour",
+    c06_itext_neighbour,
+    {"ch": [0, 1, 2, 3], "n": [1, 2]},
+    reach_if=lambda fx: fx["n"] == 1,
+    timeout=400,
+    kernel=K,
+    shims=("S1", "S2", "S3", "S4", "S5", "S9"),
+    symbolic="itext entry text of n symbolic printable ASCII characters; whether the entry written just before it (sibling choice / previous question) holds a ${reference} (boolean)",
+    bounds="n fixed per instance (1-2); channels: choice label, question label, hint, second-language choice label; one form with a dynamic choice list",
+    weight=80,
+)
